@@ -114,7 +114,7 @@ def gen_case(rng, maxlen=6, fn=None):
         # pw_align only: this letter is handed over as a BLANK (a legal symbol of a string, a tuple or a list)
         "blank": rng.choice(alpha) if fn == 7 and rng.random() < 0.35 else None,
         # ... or as a combining mark (a str input must be taken code point by code point, not normalised)
-        "blank_char": rng.choice([" ", " ", "\u0303", "\u0301"]),
+        "blank_char": rng.choice([" ", " ", "\u0303", "\u0301", "ts", "t\u02b0"]),
     }
     # a keyword that is left out takes the documented default of pw_align; the case records the effective value
     for k, v in (("gop", F(-1)), ("scale", F(1, 2)), ("mode", "global")):
@@ -229,6 +229,8 @@ def run_impl(case):
         conv = {"str": "".join, "tuple": tuple, "list": list}[case.get("container", "list")]
         bl = case.get("blank")
         bc = case.get("blank_char", " ")
+        if bl and len(bc) > 1 and conv == "".join:
+            conv = tuple          # a multi-character token cannot be written into a str input
         to_b = lambda x: bc if x == bl else x
         from_b = lambda x: bl if x == bc else x
         unb = lambda part: [from_b(x) for x in part]
